@@ -1,0 +1,45 @@
+//go:build verif
+
+package s2
+
+import (
+	"github.com/golang/geo/r2"
+	"github.com/golang/geo/s1"
+)
+
+// Thin wrappers exporting unexported functions and fields to the verification harness
+// (property C20). Add-only; no behaviour of the package changes.
+
+func VerifC20EstimateMaxError(e *EdgeTessellator, pa r2.Point, a Point, pb r2.Point, b Point) s1.ChordAngle {
+	return e.estimateMaxError(pa, a, pb, b)
+}
+func VerifC20ScaledTolerance(e *EdgeTessellator) s1.ChordAngle { return e.scaledTolerance }
+func VerifC20WrapDestination(a, b, wrap r2.Point) r2.Point {
+	return wrapDestination(a, b, func() r2.Point { return wrap })
+}
+func VerifC20FindEndVertex(p Polyline, tolerance s1.Angle, index int) int {
+	return findEndVertex(p, tolerance, index)
+}
+
+// VerifC20TessConsts returns tessellationInterpolationFraction, its complement as the
+// compiler folds it, tessellationScaleFactor and minTessellationTolerance.
+func VerifC20TessConsts() (t1, t2, scale, minTol float64) {
+	return tessellationInterpolationFraction, 1 - tessellationInterpolationFraction,
+		tessellationScaleFactor, float64(minTessellationTolerance)
+}
+
+func VerifC20CellIDSnapperFields(sf CellIDSnapper) (int, s1.Angle) { return sf.level, sf.snapRadius }
+func VerifC20IntLatLngSnapperFields(sf IntLatLngSnapper) (int, s1.Angle, s1.Angle, s1.Angle) {
+	return sf.exponent, sf.snapRadius, sf.from, sf.to
+}
+func VerifC20MinSnapRadiusForLevel(level int) s1.Angle {
+	return CellIDSnapper{}.minSnapRadiusForLevel(level)
+}
+func VerifC20LevelForMaxSnapRadius(r s1.Angle) int { return CellIDSnapper{}.levelForMaxSnapRadius(r) }
+func VerifC20MinSnapRadiusForExponent(e int) s1.Angle {
+	return IntLatLngSnapper{}.minSnapRadiusForExponent(e)
+}
+func VerifC20FrameDirection(origin, candidate Point) (x, y float64) {
+	d := toFrame(getFrame(origin), candidate)
+	return d.X, d.Y
+}
